@@ -68,7 +68,7 @@ CHECKS.update({
     "C03": ("fault_enumeration",
             "model-based property testing with invalid-input classes on every write path + syscall-level storage fault injection; each failing call followed by a live dump and a strict recovery of a copy",
             "Part invalid: generated histories on a persistent TieredEngine with 9 invalid vector classes (+ index full) on 4 write paths (cold insert, tiered insert, bulk load incl. invalid item inside a valid batch, drain repair), targeting fresh / existing / deleted ids: Err (or item counted failed) => live dump unchanged and strict recovery of a copy equals the pre-call dump; Ok => recoverable. Part storage: see level_note.",
-            "An invalid-class vector that the engine legitimately accepts (Euclidean accepts tiny/huge finite vectors) is treated as an ordinary acknowledged write.",
+            "An invalid-class vector that the engine legitimately accepts (Euclidean accepts tiny/huge finite vectors) is treated as an ordinary acknowledged write. Part storage: a generated history is re-run with one fault sequence armed in the LD_PRELOAD shim: n-th call (sampled over the calls counted in a fault-free pass) of write / fsync+fdatasync / rename, or masks that also cover the rollback's ftruncate, x errno {ENOSPC, EIO, EDQUOT, EINTR, EACCES, short write} x partial length {0,1,half,len-1} (short write first, errno on the following call, as POSIX specifies) x repeat {1,2,8}; per operation Err => live state unchanged, Ok => applied; after every operation hit by the fault or returning Err a copy of the directory is recovered strictly and must equal the acknowledged operations. One listed known finding (C03-F3, failed append + failed rollback truncate).",
             "DESIGN.md §3 C03"),
 })
 
